@@ -454,6 +454,11 @@ func run(r *eng.Runner) {
 		}
 		r.DoIsolated(&Case{Src: eng.Q(src), Layer: "depth:" + d.name}, 120*time.Second)
 	}
+	// values that refer to themselves
+	for _, s := range []string{`{% for i in "abc" %}{% cycle c as c %}{% endfor %}`, `{% cycle c as c %}{% cycle c %}{{ c }}`, `{% for i in "ab" %}{% cycle "a" c as c %}{{ c }}{% endfor %}`, `{% cycle c as c silent %}{{ c|upper }}{% if c %}x{% endif %}`,
+		`{% set a = [a] %}{% set a = [a] %}{{ a }}{{ a|join:"," }}`, `{% with x=x %}{% with x=x %}{{ x }}{% endwith %}{% endwith %}`, `{% macro m(p=m) %}{{ p }}{% endmacro %}{{ m() }}`} {
+		r.DoIsolated(&Case{Src: eng.Q(s), Layer: "self-reference"}, 60*time.Second)
+	}
 	// resource caps
 	for _, s := range []string{"{% lorem 100000000 w %}", "{% lorem 99999999999999999999 p %}", `{{ "x"|center:99999999999 }}`, `{{ "x"|ljust:99999999999 }}`, `{{ "x"|rjust:99999999999 }}`, `{{ 1.5|floatformat:99999999999 }}`, `{{ "x"|rjust:iMin }}`, `{{ "x"|ljust:iMax }}`, `{{ "x"|center:iMin }}`,
 		`{{ sLong|wordwrap:iMax }}`, `{{ sLong|truncatechars:iMin }}`, `{{ slI|slice:"-99999999999999999999:99999999999999999999" }}`, `{{ 1|get_digit:iMax }}`, `{% widthratio iMax 1 iMax %}`, `{{ 10 ^ 10 ^ 10 }}`, `{{ iMin / iNeg }}`, `{{ iMin % iNeg }}`, `{{ "x"|stringformat:"%9999999d" }}`} {
